@@ -89,6 +89,28 @@ CLAIMED = {
         note='TLC 1.8 + CommunityModules; the Go harness logs replies faithfully; sequential driver (one goroutine) under testing/synctest; sampled shaped histories (small-scope); two live objects never share a unique secondary key; LPM Get/List judged for full-length keys and stored prefixes.',
         technique="TLA+ specs Table.tla + DB.tla; TLC model checking + TLC trace validation (DBTrace.tla) of logs of the real DB",
         design_ref='4.6, 7 (C19)'),
+    "C17": dict(
+        engine="map",
+        text="PartMap.tla treats every part.Map/part.Set/MapTxn operation as creating a new persistent value from older ones "
+             "(later write wins in FromMap, set algebra for Union/Difference, JSON/YAML round trip yields an equal value); TLC "
+             "model-checks it, prints one script per transition, and validates logs of the real code (TLC scripts + shaped "
+             "branching histories crossing the empty/singleton/tree representations, MapTxn reused after Commit, partial "
+             "iteration) against MapTrace.tla; every value obtained is re-read at the end of each script.",
+        note="As C11; string keys (valid UTF-8) and int values.",
+        technique="TLA+ spec PartMap.tla; TLC model checking + script replay + TLC trace validation",
+        design_ref="4.2, 7 (C17)"),
+    "C18": dict(
+        engine="enc",
+        text="KeyEnc.tla states what any correct composite-key encoding must satisfy (injective, order-embedding for (secondary, "
+             "primary), separable) and the documented scheme; TLC checks the scheme on all pairs of pairs over {00,01,02,ff} up to "
+             "length 2 (thorough: {00,01,02} up to 3) and evaluates the same requirements on the LOGGED outputs of "
+             "encodeNonUniqueKey (verif accessor), index.Uint16/32/64, Int*, Bool, String and the LPM codec; black box: a "
+             "non-unique index populated with such pairs is queried and DBTrace.tla validates the observed order. Known "
+             "finding J (primary keys >= 256 escaped bytes) is matched by signature.",
+        note="64-bit integers are compared as 16-bit limb sequences; requirements are evaluated on the logged function, so another "
+             "correct scheme would pass.",
+        technique="TLA+ spec KeyEnc.tla; TLC exhaustive evaluation on bounded strings + TLC validation of logged encoder outputs",
+        design_ref="4.4, 7 (C18)"),
 }
 
 ALL = [f"C{i:02d}" for i in range(1, 21)]
@@ -133,6 +155,10 @@ def main():
             {"name": "db", "path": "harness/drv_db.go + spec/Table.tla + spec/DB.tla + spec/trace/DBTrace.tla",
              "serves_properties": ["C01", "C02", "C03", "C04", "C06", "C07", "C08", "C09", "C19"],
              "kind_free_text": "sequential script interpreter for statedb.DB under testing/synctest + TLA+ trace specification checked by TLC"},
+            {"name": "map", "path": "harness/drv_map.go + spec/PartMap.tla + spec/trace/MapTrace.tla",
+             "serves_properties": ["C17"], "kind_free_text": "script interpreter for part.Map/Set + TLA+ trace specification"},
+            {"name": "enc", "path": "harness/drv_enc.go + spec/KeyEnc.tla + spec/trace/EncTrace.tla",
+             "serves_properties": ["C18"], "kind_free_text": "encoder output tables validated by TLC against KeyEnc.tla"},
         ],
         "checks": checks,
         "not_applicable": na,
